@@ -678,6 +678,9 @@ static void account(const case_t *c, const res_t *r)
 /* evaluate, account, report; returns 1 on a violation */
 static int do_case(case_t *c, res_t *r)
 {
+	/* every further case could cost another watchdog period: nothing is evaluated any more, the loops run out
+	 * and the parts report themselves as abandoned */
+	if (giving_up()) { r->in_grammar = 1; r->o.first_end = -1; return 0; }
 	const char *k = eval_case(c, r);
 	account(c, r);
 	if (k) { n_viol_part[c->part - 'a']++; report(c, k); return 1; }
@@ -963,8 +966,13 @@ static int part_b(void)
 		b_product(&A, &S, 1, "b_two_line_texts_wide_alphabet_3_pairs");
 		free(A.l); free(S.l);
 	}
-	/* two lines, basic alphabet {"", blank, tab} x {"", " \t\r"}: all ordered pairs of lines of up to 3 pairs */
-	if (b_ok) {
+	/* two lines, basic alphabet {"", blank, tab} x {"", " \t\r"}: all ordered pairs of lines of up to 3 pairs.
+	 * (Development aid: C18_DEV_SKIP_BASIC_PRODUCT in the environment leaves this product out; the run then says that it
+	 * is not exhaustive. A change caught without the product is caught with it.) */
+	if (b_ok && getenv("C18_DEV_SKIP_BASIC_PRODUCT")) {
+		vx_note("C18_DEV_SKIP_BASIC_PRODUCT is set: the two-line product over the basic alphabet was left out; run is not exhaustive");
+		b_ok = 0;
+	} else if (b_ok) {
 		pool_t P = {0};
 		gen_t gp = { 3, 2, vx_thorough() ? 3 : 2, 3, &P };
 		gen_lines(&gp);
@@ -1050,7 +1058,8 @@ static int part_d(void)
 		for (int i = 0; i < L; i++)
 			for (int j = i; j < L; j++)
 				for (int u = 0; u < 256; u++) {
-					if (!vx_mine(idx++)) continue;
+					idx++;
+					if (!vx_mine(idx + idx / 256)) continue;
 					if (must_stop('d')) { vx_count("d_texts", nt); vx_count("d_texts_in_grammar", ng); return 0; }
 					for (int v = 0; v < (i == j ? 1 : 256); v++) {
 						memcpy(c.text, d_tmpl[t], (size_t)L + 1);
@@ -1130,7 +1139,8 @@ static int part_e(void)
 		for (int w = 0; w < (t <= 5 ? LENGTHOF(wsu) : 1); w++)
 			for (int ki = 0; ki < LENGTHOF(kq) + (vx_thorough() ? LENGTHOF(kt) : 0); ki++) {
 				int k = ki < LENGTHOF(kq) ? kq[ki] : kt[ki - LENGTHOF(kq)];
-				if (!vx_mine(idx++)) continue;
+				idx++;
+				if (!vx_mine(idx * 7 + (uint64_t)(t * 4 + w))) continue;	/* every worker gets texts of every size */
 				if (must_stop('e')) { vx_count("e_texts", nt); return 0; }
 				if (!e_build(&c, t, k, wsu[w])) { nskip++; continue; }
 				c.place = 0;
